@@ -672,6 +672,10 @@ CORPUS_URLS = [
     "http://%s.fr/" % AMP_PUNY, "%s.fr" % AMP_PUNY, "http://www.%s.fr/" % AMP_PUNY, "http://a.%s.fr/" % AMP_PUNY,
     "http://a.com/?url=HTTP%3A%2F%2Fb.com", "http://a.com/?url=HTTP%3A%2F%2Fwww.B.com%2Fx", "http://a.com/?URL=http%3A%2F%2Fb.com",
     "http:///path", "/ /[", "http://?a=1", "http:path", "///x", "//", "http://", "http://www./x", "http://m./", "www.", "http://www.com/x?a=1", "custom:///path",
+    # FX-C07-a3404a2 (second label pass after the amp- cut, in normalize_hostname as in normalize_url), FX-C04-dcfec1d
+    "http://amp-www.a.com/", "amp-www.a.com", "http://amp-m.www2.a.com/x", "http://www.amp-mobile.a.com/", "http://amp-amp.a.com/",
+    "\x00http://a.com/x?redirect=/z", " \thttp://a.com/x?redirect=//www.b.com/z\n", " url=http://www.b.com/x", "http://x.cdn.ampproject.org/c/ ",
+    "http://a.com/?url=https:// ", " " * 20 + "http://x&u=%2Fx@a.com/p",
     # redirect-carrying
     "http://a.com/?url=http%3A%2F%2Fwww.b.com%2Fp", "https://www.google.com/url?q=https://m.b.com/x/&sa=D", "a.com?url=/z",
     "l.facebook.com/l.php?u=http%3A%2F%2Ffr.b.co.uk%2Findex.html", "https://cdn.ampproject.org/c/s/www.b.com/a/amp/",
@@ -682,6 +686,7 @@ CORPUS_URLS = [
     "http://[::1", "http://a.com:99999/", "a:b:c", "", " ", "http://www.b.com /x", "http ://x", "http:// www.a.com/",
 ]
 CORPUS_HOSTS = [
+    "amp-www.a.com", "amp-m.www2.a.com", "AMP-WWW.a.com", "amp-amp.a.com", "www.amp-m.a.com", "amp-www.com", "amp-www", "amp-m.fr.a.com",
     "fr-FR.facebook.com", "fr.facebook.com", "amp-xn--tlrama-bvab.fr", "forum-m.example.com", "blogspot.com.", "com", "co.uk", "www.com", "a.co.uk",
     "%s.fr" % AMP_PUNY, "www.%s.fr" % AMP_PUNY, " www.a.com ", "WWW.A.COM", "XN--TLRAMA-BVAB.FR", "m", "www.", ".", "", "a..b", ".a.com", "fr.m.a.com",
     "m.fr.a.com", "www.fr-fr.a.com", "amp-fr.a.com", "\x00 www.a.com", "a b.com", "localhost", "1.2.3.4", "[::1]", "a.com:80", "u@a.com",
